@@ -285,7 +285,8 @@ def run_property(pid, tier, seed, replay=None):
                             samples=(samples[:12] or ["(no property theorem compiled)"]),
                             theorems=["%s:%s" % t for t in theorems],
                             partial_or_refuted=[n for _, n in theorems if n.endswith("_partial") or n.endswith("_refuted")],
-                            source_functions=[("%s:%s.%s" % (e["file"], c, f)) for e in spec for c, f in e["items"]],
+                            source_functions=[("%s:%s.%s" % (e["file"], c, f)) for e in spec if e["items"] != "*" for c, f in e["items"]]
+                                             + [("%s:*" % e["file"]) for e in spec if e["items"] == "*"],
                             tie=cfg.get("tie", "regeneration (Src.v re-serialised from /repo on this run)"),
                             broken=broken,
                             correspondence=({k: corr[k] for k in corr if k not in ("mismatches",)} if corr else None),
